@@ -207,6 +207,17 @@ def mark_internal_samples(ts, rng, k=1):
     return tables.tree_sequence(), [int(x) for x in pick]
 
 
+def extra_flag_bits(ts, rng):
+    """Set flag bits other than NODE_IS_SAMPLE on random nodes (tsinfer marks historical samples with
+    1<<20, tsdate's preprocessing marks split nodes with 1<<30; users may use the remaining bits)."""
+    tables = ts.dump_tables()
+    flags = tables.nodes.flags.copy()
+    for b in (1 << 20, 1 << 30, 2):
+        flags |= (rng.random(flags.size) < 0.35).astype(flags.dtype) * flags.dtype.type(b)
+    tables.nodes.flags = flags
+    return tables.tree_sequence()
+
+
 def star_ts(rng, n=None, trees=1, L=100.0):
     """Every edge joins the single non-sample parent (per tree) to a sample at time 0."""
     msprime, tskit = _imports()
@@ -226,7 +237,8 @@ def star_ts(rng, n=None, trees=1, L=100.0):
 
 def gen_ts(rng, **kw):
     """One structured random input + info dict (which mutilations fired)."""
-    p = dict(historical=0.0, gaps=0.0, rootmuts=0.0, metadata=0.0, permute=0.0, polytomy=0.0, internal_samples=0.0)
+    p = dict(historical=0.0, gaps=0.0, rootmuts=0.0, metadata=0.0, permute=0.0, polytomy=0.0, internal_samples=0.0,
+             extra_flags=0.0)
     p.update({k: v for k, v in kw.items() if k in p})
     simkw = {k: v for k, v in kw.items() if k not in p}
     hist = rng.random() < p["historical"]
@@ -256,6 +268,9 @@ def gen_ts(rng, **kw):
     if rng.random() < p["permute"]:
         ts, _ = permute_nodes(ts, rng)
         fired.append("permute")
+    if p["extra_flags"] and rng.random() < p["extra_flags"]:
+        ts = extra_flag_bits(ts, rng)
+        fired.append("extra_flags")
     info["fired"] = fired
     info.update(trees=ts.num_trees, nodes=ts.num_nodes, edges=ts.num_edges, muts=ts.num_mutations, sites=ts.num_sites)
     return ts, info
